@@ -562,6 +562,9 @@ def debug_gates(index: RepoIndex, rep, rule: str, eff: Effects, rm=None) -> None
                 why = impure(e.node)
                 if why:
                     evs.append(('effect', f'call {src(e.node)} ({why})', g, e))
+        if w.fall is not None:
+            # falling off the end returns None, like a bare `return`
+            evs.append(('effect', 'return None', w.expand_formula(strip_iter(w.fall)), None))
         keys: Set[str] = set()
         for _, _, g, _ in evs:
             _atom_keys(g, keys)
